@@ -67,7 +67,7 @@ func init() {
 		},
 		Run:      runC17,
 		StepUnit: "scheduling decisions of the simulated pool",
-		Rule: "one run = one estimator workload (closed-form scalar estimators of 6 families with optional log-weights; scalar mixtures of normals / Poissons / categoricals under EM; HMMs with categorical or normal emissions under Baum-Welch with 1..5 records; vector estimators: multivariate normal, scalar iid / id wrappers, vector mixtures; matrix estimators: vector-id, matrix mixtures under EM, matrix HMMs under Baum-Welch; translation / log-transform wrappers through Estimate and through the batch interface (Initialize, NewObservation from inside pool jobs, GetEstimate); sparse and dense logistic regression (SAGA; two schedules of one pool size must agree bit for bit); the numeric estimator, whose objective uses the pool inside Newton / BFGS; and a fault scenario in which one component estimator fails at a logically identified call) executed once with the zero-value (sequential) pool and once with a simulated pool whose size (2..6), channel buffer (1..8), scheduler policy (uniform, spread, hog, main-only, starve, lifo) and every scheduling decision (who receives a submitted job, who runs next at AddJob / job start / job end / Wait entry / Wait poll) are drawn from the tape. Oracles: no data race under the happens-before relation of the real pool (-race build, baton hand-offs hidden, channel / WaitGroup / goroutine-creation edges declared), no deadlock, no step cap, estimates and hook-reported likelihoods equal to the sequential run within 1e-8, caller data unchanged. Non-trivial = at least two observations. Distinct = hash of the executed (executor, job) sequence.",
+		Rule: "one run = one estimator workload (closed-form scalar estimators of 6 families with optional log-weights; scalar mixtures of normals / Poissons / categoricals under EM; HMMs with categorical or normal emissions and a free, constrained (tied entries) or hierarchical (blocks of states) transition matrix under Baum-Welch with 1..5 records; vector estimators: multivariate normal, scalar iid / id wrappers, vector mixtures; matrix estimators: vector-id, matrix mixtures under EM, matrix HMMs under Baum-Welch; translation / log-transform wrappers through Estimate and through the batch interface (Initialize, NewObservation from inside pool jobs, GetEstimate); sparse and dense logistic regression (SAGA; two schedules of one pool size must agree bit for bit); the numeric estimator, whose objective uses the pool inside Newton / BFGS; and a fault scenario in which one component estimator fails at a logically identified call) executed once with the zero-value (sequential) pool and once with a simulated pool whose size (2..6), channel buffer (1..8), scheduler policy (uniform, spread, hog, main-only, starve, lifo) and every scheduling decision (who receives a submitted job, who runs next at AddJob / job start / job end / Wait entry / Wait poll) are drawn from the tape. Oracles: no data race under the happens-before relation of the real pool (-race build, baton hand-offs hidden, channel / WaitGroup / goroutine-creation edges declared), no deadlock, no step cap, estimates and hook-reported likelihoods equal to the sequential run within 1e-8, caller data unchanged. Non-trivial = at least two observations. Distinct = hash of the executed (executor, job) sequence.",
 		Assumptions: []string{
 			"schedules are explored at job granularity; sub-job interleavings are covered by the race oracle (autodiff has no lock of its own: two concurrent job bodies either touch disjoint memory and commute, or race and are reported)",
 			"EM / Baum-Welch run a fixed number of steps with epsilon = -Inf so that a rounding flip of the convergence test cannot change the iteration count",
@@ -102,7 +102,7 @@ func init() {
 			}},
 		},
 		StepUnit: "scheduling decisions of the simulated pool",
-		Rule: "same workloads as C17 (scalar closed-form estimators, scalar mixtures incl. the summarised data set, vector HMMs, matrix mixtures / matrix HMMs / matrix HMMs whose emissions are vector mixtures = nested EM), executed under a drawn simulated pool. Closed-form estimators: the weighted log-likelihood L = sum_i exp(gamma_i) log p(x_i; theta), evaluated by the harness through the family's own LogPdf, must not increase for any admissible perturbation theta +- h e_j (h = 1e-2, 1e-4 relative) of the returned parameters. EM / Baum-Welch: the likelihood trace collected through EmHook / BaumWelchHook must be non-decreasing (1e-9 relative). Non-trivial = at least two observations. Distinct = hash of the executed (executor, job) sequence.",
+		Rule: "same workloads as C17 (scalar closed-form estimators, scalar mixtures incl. the summarised data set, vector HMMs (free, constrained = tied transition entries, hierarchical = blocks of states; the tied M-step is solved by a root finder, so that variant's trace is judged at 1e-6), matrix mixtures / matrix HMMs / matrix HMMs whose emissions are vector mixtures = nested EM), executed under a drawn simulated pool. Closed-form estimators: the weighted log-likelihood L = sum_i exp(gamma_i) log p(x_i; theta), evaluated by the harness through the family's own LogPdf, must not increase for any admissible perturbation theta +- h e_j (h = 1e-2, 1e-4 relative) of the returned parameters. EM / Baum-Welch: the likelihood trace collected through EmHook / BaumWelchHook must be non-decreasing (1e-9 relative). Non-trivial = at least two observations. Distinct = hash of the executed (executor, job) sequence.",
 		Assumptions: []string{
 			"perturbations respect the bounds the estimator was configured with (SigmaMin, LambdaMax, probabilities in (0,1))",
 			"families whose M-step is exact only (normal, Poisson, categorical components / emissions)",
